@@ -277,6 +277,11 @@ Proof.
   unfold json_nat, jnat. assert (E : (Z.of_nat n <? 0)%Z = false) by (apply Z.ltb_ge; lia). rewrite E, Nat2Z.id. reflexivity.
 Qed.
 
+Lemma json_depth_jnat n : json_depth (JInt (Z.of_nat n)) = Ok n.
+Proof.
+  unfold json_depth. assert (E : (Z.of_nat n <? 0)%Z = false) by (apply Z.ltb_ge; lia). rewrite E, Nat2Z.id. reflexivity.
+Qed.
+
 Lemma open_roundtrip n k rest :
   open_of_json (jget ((if 0 <? n then [(k, JInt (Z.of_nat n))] else []) ++ rest) k) =
   if 0 <? n then Ok n else open_of_json (jget rest k).
@@ -284,14 +289,14 @@ Proof.
   destruct (0 <? n) eqn:E; simpl; auto.
   rewrite String.eqb_refl. unfold open_of_json. cbn [truthy].
   assert (E2 : (Z.of_nat n =? 0)%Z = false) by (apply Nat.ltb_lt in E; apply Z.eqb_neq; lia). rewrite E2. cbn [negb].
-  apply (json_nat_jnat n).
+  apply (json_depth_jnat n).
 Qed.
 
 Lemma open_of_json_pos n : 0 <? n = true -> open_of_json (Some (JInt (Z.of_nat n))) = Ok n.
 Proof.
   intros E. unfold open_of_json. cbn [truthy].
   assert (E2 : (Z.of_nat n =? 0)%Z = false) by (apply Nat.ltb_lt in E; apply Z.eqb_neq; lia). rewrite E2. cbn [negb].
-  apply (json_nat_jnat n).
+  apply (json_depth_jnat n).
 Qed.
 
 Theorem slice_roundtrip sl : slice_wf sl -> slice_from_json s (Some (slice_to_json s sl)) = Ok sl.
